@@ -364,6 +364,15 @@ func (vfs *OrefaFS) Link(oldname, newname string) error {
 		return &os.LinkError{Op: op, Old: oldname, New: newname, Err: vfs.err.NotADirectory}
 	}
 
+	if nChildOk {
+		err := vfs.err.FileExists
+		if vfs.OSType() == avfs.OsWindows {
+			err = avfs.ErrWinAlreadyExists
+		}
+
+		return &os.LinkError{Op: op, Old: oldname, New: newname, Err: err}
+	}
+
 	// Tested before the locks below are taken: a directory may be the parent of newname.
 	if oChild.isDir() {
 		err := error(avfs.ErrOpNotPermitted)
@@ -379,15 +388,6 @@ func (vfs *OrefaFS) Link(oldname, newname string) error {
 
 	nParent.mu.Lock()
 	defer nParent.mu.Unlock()
-
-	if nChildOk {
-		err := vfs.err.FileExists
-		if vfs.OSType() == avfs.OsWindows {
-			err = avfs.ErrWinAlreadyExists
-		}
-
-		return &os.LinkError{Op: op, Old: oldname, New: newname, Err: err}
-	}
 
 	vfs.mu.Lock()
 	vfs.nodes[nAbsPath] = oChild
